@@ -1,6 +1,6 @@
 // C08: generated objects enforce their call protocol and the I/O buffer contract.
 // The object starts as arbitrary memory. A script of STEPS calls is chosen symbolically among
-// initialize (good/bad sizeof, good/bad version, all option bits) and the coroutines f1, f2,
+// initialize (good/bad sizeof, good/bad version, all option bits) and the coroutines f1, f2, poke,
 // transform_io with valid or NULL buffers whose contents and indexes are symbolic. A small
 // model of the protocol (doc/note/statuses.md, initialization.md) predicts the status class of
 // every call; after every call the I/O buffer contract is asserted.
@@ -70,11 +70,11 @@ void harness_protocol(void) {
   // arbitrary memory that is not, by chance, one of the two magic values
   verif_assume(p.private_impl.magic != WUFFS_BASE__MAGIC && p.private_impl.magic != WUFFS_BASE__DISABLED);
   int state = M_RAW;
-  int active = 0;  // 0: none; 1: transform_io; 2: f1; 3: f2 (the generator's numbering)
+  int active = 0;  // 0: none; otherwise the op number of the suspended coroutine
 
   for (int64_t step = 0; step < verif_param("STEPS"); step++) {
     uint64_t op = nondet_u64();
-    verif_assume(op < 5);
+    verif_assume(op < 6);
     op = verif_conc(op);
     if (op == 0) {
       // initialize
@@ -105,7 +105,7 @@ void harness_protocol(void) {
       verif_check(q == 0, "pure/get-quirk-value");
       continue;
     }
-    // a coroutine call: op 1 = transform_io, 2 = f1, 3 = f2
+    // a coroutine call: op 1 = transform_io, 2 = f1, 3 = f2, 5 = poke (no suspension point of its own)
     vbuf src, dst;
     vbuf_make(&src);
     int src_null = nondet_u8() & 1, dst_null = 0;
@@ -119,8 +119,10 @@ void harness_protocol(void) {
       vbuf_check_dst(&dst);
     } else if (op == 2) {
       st = wuffs_demo__parser__f1(&p, src_null ? NULL : &src.buf);
-    } else {
+    } else if (op == 3) {
       st = wuffs_demo__parser__f2(&p, src_null ? NULL : &src.buf);
+    } else {
+      st = wuffs_demo__parser__poke(&p, src_null ? NULL : &src.buf);
     }
     vbuf_check_src(&src);
 
